@@ -69,6 +69,28 @@ fn check_concat_nodes(spec: &Spec) -> Result<(), String> {
       if err.is_some() {
         return;
       }
+      // RawSource knows which of its two representations it holds
+      match n {
+        Spec::Raw(t) => {
+          let r = rspack_sources::RawSource::from(t.clone());
+          if r.is_buffer() || rspack_sources::RawSource::from(t.as_str()).is_buffer() {
+            err = Some(format!("RawSource built from the string {t:?} says is_buffer()"));
+          }
+          if r.source() != t.as_str() || r.buffer() != t.as_bytes() {
+            err = Some(format!("typed RawSource from the string {t:?}: source() / buffer() differ from it"));
+          }
+        }
+        Spec::RawBytes(b) => {
+          let r = rspack_sources::RawSource::from(b.clone());
+          if !r.is_buffer() || !rspack_sources::RawSource::from(b.as_slice()).is_buffer() {
+            err = Some(format!("RawSource built from the bytes {b:?} denies is_buffer()"));
+          }
+          if r.buffer() != b.as_slice() || r.source() != String::from_utf8_lossy(b) {
+            err = Some(format!("typed RawSource from the bytes {b:?}: buffer() / source() differ from them / their lossy decoding"));
+          }
+        }
+        _ => {}
+      }
       if let Spec::Concat { children, .. } = n {
         let c = build(n);
         let (mut t, mut b) = (String::new(), Vec::new());
